@@ -238,6 +238,30 @@ class GenerateWasmVisitor(Visitor.DefaultVisitor):
             )
         )
 
+    def v_CastInstruction(self, ci: LinearIR.CastInstruction, ctx: Context):
+        assert ctx.Code
+        sourceType = ci.Value.Type
+        if not (
+            isinstance(ci.Type, LinearIR.FloatType)
+            and isinstance(sourceType, LinearIR.IntegerType)
+        ):
+            # float -> int rounds down in the VM, there is no such instruction
+            raise RuntimeError(
+                f"Unsupported cast for WebAssembly: {sourceType} to {ci.Type}"
+            )
+
+        self.__PushValueOntoStack(ci.Value, ctx)
+        opCode = "f32.convert_i32_u" if sourceType.Unsigned else "f32.convert_i32_s"
+        ctx.Code.AddInstruction(
+            WebAssembly.Instruction(WebAssembly.opcodes[opCode])
+        )
+        ctx.Code.AddInstruction(
+            WebAssembly.Instruction(
+                WebAssembly.opcodes["local.set"],
+                (ctx.GetLocalForReference(ci.Reference),),
+            )
+        )
+
     def v_ReturnInstruction(self, ri: LinearIR.ReturnInstruction, ctx: Context):
         if ri.Value:
             self.__PushValueOntoStack(ri.Value, ctx)
